@@ -229,15 +229,21 @@ def run(F, R):
         es = sm.bool_edges(S, is_guard(kind))
         gedges[kind] = [(a, b) for (a, b, truth) in es if not truth]
     required = {"HttpTransport": ("limit", "user", "poll"), "HttpStatus": ("limit", "poll")}
+    all_ore = [e for e in sm.outcome_edges(S, ORE) if S.nodes[e[0]].ctx is hdr_ctx and e[0] in L]
     for v in variants:
         es = [e for e in sm.outcome_edges(S, ORE, v) if S.nodes[e[0]].ctx is hdr_ctx and e[0] in L]
+        # a later test of the same error inside an arm (`matches!(&e, HttpTransport(x) if ..)`) has an `otherwise` edge that
+        # names every other variant; for variant v only the edges count that can be reached while the error *is* v
+        notv = [(a_, b_) for (a_, b_, n_) in all_ore if v not in n_]
+        feas_ = reach(S, S.succ[req], cut_edges=notv)
+        es = [e for e in es if e[0] in feas_]
         if not es:
             R.violation("C06-R2", "variant:" + v, "the attempt loop does not distinguish OmahaRequestError::%s (no match arm in the loop)" % v, S.nodes[req].loc())
             continue
         for (a, b, names) in es:
-            back = req in reach(S, [b])
+            back = req in reach(S, [b], cut_edges=notv)
             if v in NEVER_RETRIED:
-                p = path(S, [b], [req]) if back else None
+                p = path(S, [b], [req], cut_edges=notv) if back else None
                 R.check("C06-R2", "variant:" + v, not back, "%s ends the loop: no path back to the send" % v,
                         "%s failures are retried: path %s" % (v, S.fmt_path(p) if p else ""), S.nodes[a].loc())
             elif v in required:
@@ -248,8 +254,8 @@ def run(F, R):
                     if not gedges[g]:
                         R.violation("C06-R2", "variant:%s:guard:%s" % (v, g), "no %s test in the attempt loop" % g, S.nodes[a].loc())
                         continue
-                    still = req in reach(S, [b], cut_edges=gedges[g])
-                    p = path(S, [b], [req], cut_edges=gedges[g]) if still else None
+                    still = req in reach(S, [b], cut_edges=gedges[g] + notv)
+                    p = path(S, [b], [req], cut_edges=gedges[g] + notv) if still else None
                     R.check("C06-R2", "variant:%s:guard:%s" % (v, g), not still,
                             "retry after %s only through the false edge of the %s test" % (v, g),
                             "retry after %s possible without passing the %s test: %s" % (v, g, S.fmt_path(p) if p else ""), S.nodes[a].loc())
